@@ -93,7 +93,16 @@ class Ctx:
     def run(self, case: Any, enumerated: bool = False) -> Verdict:
         """Evaluate and record. ``enumerated``: the caller enumerates distinct
         cases, so a non-trivial one is counted instead of hashed."""
-        v = self.evaluate(case)
+        try:
+            v = self.evaluate(case)
+        except MemoryError:
+            # the shard's memory cap was hit inside the harness itself (the library contains a MemoryError of its
+            # own): a resource budget, so inconclusive - never a violation, never a harness error
+            import gc
+
+            gc.collect()
+            v = Verdict()
+            v.labels.append("inconclusive:memory-cap")
         self.record(case, v, enumerated)
         return v
 
@@ -437,6 +446,24 @@ def finish(
 # Sharded execution
 
 
+def _cap_memory() -> None:
+    """Cap the address space of a shard process (default 3 GB, VERIF_SHARD_MEM_MB).
+
+    A generated case that makes the library allocate without bound (a filter over a huge range, say) then gets a
+    MemoryError - which the library contains like any other exception, or which Ctx.run labels inconclusive -
+    instead of getting the whole check killed by the kernel.
+    """
+    import resource
+
+    cap = int(os.environ.get("VERIF_SHARD_MEM_MB", "3000")) << 20
+    try:
+        _soft, hard = resource.getrlimit(resource.RLIMIT_AS)
+        if hard == resource.RLIM_INFINITY or cap < hard:
+            resource.setrlimit(resource.RLIMIT_AS, (cap, hard))
+    except (ValueError, OSError):
+        pass
+
+
 def _shard_entry(args: tuple) -> dict:
     modname, tier, seed, shard, nshards = args
     import importlib
@@ -444,6 +471,7 @@ def _shard_entry(args: tuple) -> dict:
     mod = importlib.import_module(modname)
     ctx = Ctx(mod.PID, tier, seed, mod.evaluate)
     ctx.subkey = getattr(mod, "failure_subkey", None)
+    _cap_memory()
     try:
         mod.campaign(ctx, tier, shard, nshards)
     except Exception:  # noqa: BLE001
